@@ -119,6 +119,7 @@ type Exec struct {
 	evOn         bool
 	qcache       map[string]cacheEntry
 	auxVars      []*Term
+	constCache   map[*ssa.Const]Value
 	cacheHits    int
 }
 
@@ -191,7 +192,15 @@ func (ex *Exec) info(fn *ssa.Function) *fnInfo {
 func (ex *Exec) get(fr *Frame, v ssa.Value) Value {
 	switch x := v.(type) {
 	case *ssa.Const:
-		return ex.constVal(x)
+		if v, ok := ex.constCache[x]; ok {
+			return v
+		}
+		v := ex.constVal(x)
+		switch v.(type) {
+		case *Term, *StrVal:
+			ex.constCache[x] = v
+		}
+		return v
 	case *ssa.Global:
 		return &PtrVal{cell: ex.global(x)}
 	case *ssa.Function:
@@ -325,26 +334,56 @@ func (ex *Exec) callValue(fv Value, args []Value, site *ssa.CallCommon) Value {
 	return ex.callFunction(f.fn, args, f.fv)
 }
 
-func (ex *Exec) callFunction(fn *ssa.Function, args []Value, fvs []Value) (ret Value) {
+type fnDispatch struct {
+	api   intrinsicFn
+	intr  intrinsicFn
+	name  string
+	isPkgInit bool
+}
+
+var dispatchCache sync.Map // *ssa.Function -> *fnDispatch
+
+func dispatchOf(fn *ssa.Function) *fnDispatch {
+	if d, ok := dispatchCache.Load(fn); ok {
+		return d.(*fnDispatch)
+	}
+	d := &fnDispatch{}
 	name := fn.String()
 	if fn.Origin() != nil {
 		name = fn.Origin().String()
 	}
+	d.name = name
 	if fn.Signature.Recv() == nil && fn.Pkg != nil && len(fn.Name()) > 1 && fn.Name()[0] == 'v' {
 		if f, ok := apiFns[fn.Name()]; ok {
-			ex.matArgs(args)
-			return f(ex, fn, args)
+			d.api = f
 		}
 	}
 	if in, ok := intrinsics[name]; ok {
-		ex.stubsUsed[name] = true
-		ex.matArgs(args)
-		return in(ex, fn, args)
+		d.intr = in
 	}
 	if fn.Name() == "init" && fn.Signature.Recv() == nil && fn.Pkg != nil && fn.Pkg.Func("init") == fn {
+		d.isPkgInit = true
+	}
+	dispatchCache.Store(fn, d)
+	return d
+}
+
+func (ex *Exec) callFunction(fn *ssa.Function, args []Value, fvs []Value) (ret Value) {
+	d := dispatchOf(fn)
+	if d.api != nil {
+		ex.matArgs(args)
+		return d.api(ex, fn, args)
+	}
+	if d.intr != nil {
+		ex.stubsUsed[d.name] = true
+		ex.matArgs(args)
+		return d.intr(ex, fn, args)
+	}
+	if d.isPkgInit {
 		// package initialiser called from another initialiser: handled lazily
 		return nil
 	}
+	name := d.name
 	if fn.Blocks == nil {
 		if in := ex.externalModel(fn); in != nil {
 			ex.stubsUsed[name] = true
